@@ -53,6 +53,7 @@ func AnswerRounds(s Source, steps []Step, callers []CallSpec, errEvery int) ([]S
 			maxLen = len(c.Reqs)
 		}
 	}
+	var answered []int // tags answered in earlier steps: the server may send such a result once more
 	for r := 0; r < maxLen; r++ {
 		var tags []int
 		kinds := map[int]string{}
@@ -103,6 +104,18 @@ func AnswerRounds(s Source, steps []Step, callers []CallSpec, errEvery int) ([]S
 				feats[kinds[tg]+":"+form]++
 				st.Items = append(st.Items, it)
 			}
+			if len(answered) > 0 && s.Int("repeat", 4) == 0 {
+				// a result the client has already been given arrives again (its acknowledgement got lost), somewhere among
+				// the new ones
+				dup := AnsItem{Tag: answered[s.Int("repeat-tag", len(answered))], Again: true, Gzip: s.Int("repeat-gzip", 3) == 0}
+				at := s.Int("repeat-at", len(st.Items)+1)
+				st.Items = append(st.Items[:at], append([]AnsItem{dup}, st.Items[at:]...)...)
+				feats["repeated-result"]++
+				if st.Container && at < len(st.Items)-1 {
+					feats["repeated-result-before-others-in-container"]++
+				}
+			}
+			answered = append(answered, group...)
 			steps = append(steps, st)
 		}
 	}
